@@ -59,6 +59,7 @@ type state struct {
 	oracleSelf   int // generated expressions whose two oracle evaluations were cross-checked
 	stdListed    int
 	samples      map[string][]sample
+	locByPlace   map[string]int // location sweep: judged builds per world/place
 }
 
 type sample struct {
@@ -89,6 +90,7 @@ func (s *state) flushSamples() {
 	}
 	pick("e2e-sentinel", 1)
 	pick("e2e", 2)
+	pick("e2e-location", 2)
 	pick("e2e-all-excluded", 1)
 	pick("api-import", 1)
 	pick("std-import", 1)
@@ -98,7 +100,7 @@ func (s *state) lock() func() { s.mu.Lock(); return s.mu.Unlock }
 
 // Run is the C18 check.
 func Run(c *core.Ctx) int {
-	s := &state{c: c, classes: map[string]bool{}, exprs: map[string]bool{}, stdDirs: map[string]bool{}, e2eByMode: map[string]int{}, samples: map[string][]sample{}}
+	s := &state{c: c, classes: map[string]bool{}, exprs: map[string]bool{}, stdDirs: map[string]bool{}, e2eByMode: map[string]int{}, samples: map[string][]sample{}, locByPlace: map[string]int{}}
 	npk := c.N(150, 6000)
 	nsets := c.N(3, 5)
 
@@ -203,7 +205,8 @@ func Run(c *core.Ctx) int {
 	for _, j := range jobs {
 		chunks[j.pi%nch] = append(chunks[j.pi%nch], j) // the tag sets of one package stay together
 	}
-	c.Parallel(nch, func(k int) { s.e2eBatch(pkgs, dirs, chunks[k], k) })
+	gopathEnv := []string{"GOPATH=" + s.gopath, "GO111MODULE=off", "GOMAXPROCS=2"}
+	c.Parallel(nch, func(k int) { s.e2eBatch(pkgs, dirs, chunks[k], k, gopathEnv) })
 	phase("e2e-gopath-batch")
 
 	// (b) module mode through the harness pipeline (`vp compile`: go list pattern expansion +
@@ -234,7 +237,32 @@ func Run(c *core.Ctx) int {
 	} else {
 		c.Inconclusive("cli-not-built")
 	}
-	c.Parallel(len(jobs2), func(k int) {
+	// (d) the location sweep (loc.go) runs alongside: relocated programs, one child per
+	//     (GOROOT, GOPATH) arrangement
+	locChunks := s.locSetup(pkgs[:npk])
+	c.Parallel(len(jobs2)+len(locChunks), func(k int) {
+		if k < len(locChunks) { // the longest tasks first
+			t0 := time.Now()
+			if lc := locChunks[k]; lc.cli {
+				if cli == "" {
+					return
+				}
+				j := lc.jobs[0]
+				res := c.CompileJS(j.dir, core.CompileOpt{Tags: j.g.TagSets[j.ti], Out: fmt.Sprintf("out-loc-cli%d.js", k), CLI: true, TagSep: ",", Env: lc.env})
+				if res.TimedOut {
+					c.Inconclusive("compile-timeout")
+					return
+				}
+				s.judge(j.g, j.dir, j, res.OK, res.Output, res.JS, 5000+k, nil)
+			} else {
+				s.e2eBatch(pkgs, dirs, lc.jobs, 5000+k, lc.env)
+			}
+			if os.Getenv("VERIF_DEBUG") != "" {
+				fmt.Printf("C18 location chunk %d (%d builds): %.1fs\n", k, len(locChunks[k].jobs), time.Since(t0).Seconds())
+			}
+			return
+		}
+		k -= len(locChunks)
 		j := jobs2[k]
 		g := pkgs[j.pi]
 		opt := core.CompileOpt{Tags: g.TagSets[j.ti], Out: fmt.Sprintf("out-m%d.js", k), CLI: j.mode == "cli", TagSep: []string{" ", ",", ", "}[k%3], Env: []string{"GOPATH=" + gopath}}
@@ -259,6 +287,10 @@ func Run(c *core.Ctx) int {
 		c.Count("e2e_builds_mode_"+m, n)
 	}
 	c.Count("e2e_builds_expected_to_fail", s.e2eExpectErr)
+	c.Count("location_places_observed", len(s.locByPlace))
+	if len(s.locByPlace) == 0 {
+		c.Inconclusive("location-sweep-observed-nothing")
+	}
 	c.Count("api_imports_generated_dirs", s.apiImports)
 	s.flushSamples()
 	c.Count("std_dirs_listed", s.stdListed)
@@ -274,8 +306,9 @@ func Run(c *core.Ctx) int {
 		floor = 1 << 30
 	}
 	return c.Finish("exploration", s.decisions, len(s.classes), floor,
-		"generated packages (12–40 files, optional dependency package) whose files register their names from init(); random //go:build expressions of depth ≤4 over {js, ecmascript, gc, gopherjs, netgo, purego, math_big_pure_go, go1.N, cgo, other GOOS/GOARCH, unix, unknown, user tags}, file-name suffix combinations, cgo files, .inc.js files, _test/hidden files, legacy +build lines; compiled with random -tags sets (every pair through a fresh in-process build.Session in GOPATH mode, a subset in module mode through `vp compile`, a few through the real CLI, some with the deprecated GOOS=linux override) and run under node: registered set == prediction of an independent evaluator of the documented rules; all-excluded packages must fail with the 'build constraints exclude all Go files' (go command, module mode) / 'no buildable Go source files' (go/build, GOPATH mode) error. A fixed sentinel package holds the examples of doc/compatibility.md with hand-written expectations. Same directories through build.NewBuildContext(...).Import (GoFiles/TestGoFiles/XTestGoFiles/JSFiles/CgoFiles), plus every package directory of GOROOT/src predicted as js/wasm with release tags ≤ go1.20. evaluations = (file, environment) selection decisions compared with an observation; distinct_nontrivial = distinct (expression shape over tag classes, file-name suffix, kind, predicted outcome) classes among generated files",
-		map[string]any{"suffix_vocabulary": suffixes[6:], "user_tag_pool": userPool, "builtin_tags_also_passed_as_user_tags": flippable},
+		"generated packages (12–40 files, optional dependency package) whose files register their names from init(); random //go:build expressions of depth ≤4 over {js, ecmascript, gc, gopherjs, netgo, purego, math_big_pure_go, go1.N, cgo, other GOOS/GOARCH, unix, unknown, user tags}, file-name suffix combinations, cgo files, .inc.js files, _test/hidden files, legacy +build lines; compiled with random -tags sets (every pair through a fresh in-process build.Session in GOPATH mode, a subset in module mode through `vp compile`, a few through the real CLI, some with the deprecated GOOS=linux override; a location sweep rebuilds some of them at a family of places relative to GOROOT and GOPATH: sibling directories sharing a string prefix with a symlinked GOROOT, GOPATH extending the GOROOT string, GOROOT's path inside the project path, directories named src/vendor, nested modules, dotted and std-like module paths, vendored dependencies, projects reached through a symbolic link) and run under node: registered set == prediction of an independent evaluator of the documented rules; all-excluded packages must fail with the 'build constraints exclude all Go files' (go command, module mode) / 'no buildable Go source files' (go/build, GOPATH mode) error. A fixed sentinel package holds the examples of doc/compatibility.md with hand-written expectations. Same directories through build.NewBuildContext(...).Import (GoFiles/TestGoFiles/XTestGoFiles/JSFiles/CgoFiles), plus every package directory of GOROOT/src predicted as js/wasm with release tags ≤ go1.20. evaluations = (file, environment) selection decisions compared with an observation; distinct_nontrivial = distinct (expression shape over tag classes, file-name suffix, kind, predicted outcome) classes among generated files",
+		map[string]any{"suffix_vocabulary": suffixes[6:], "user_tag_pool": userPool, "builtin_tags_also_passed_as_user_tags": flippable,
+			"location_sweep_builds_per_world_and_place": s.locCoverage()},
 		[]string{
 			"go/build/constraint parses and evaluates //go:build syntax correctly (cross-checked against a direct evaluation of the generator's own tree)",
 			"known GOOS/GOARCH lists are those of the go1.23 reference toolchain",
@@ -453,7 +486,22 @@ func describe(g *GenPkg, names []string) string {
 type e2eJob struct {
 	pi, ti int
 	goos   string
-	mode   string // gopath | module | cli
+	mode   string // gopath | module | cli | loc/<world>/<place>
+
+	// relocated programs of the location sweep (loc.go) carry their own copy and address
+	g      *GenPkg
+	dir    string
+	path   string
+	module bool
+	loc    *locInfo
+}
+
+// resolve returns the program, its directory and its import path.
+func (j e2eJob) resolve(pkgs []*GenPkg, dirs []string) (*GenPkg, string, string) {
+	if j.g != nil {
+		return j.g, j.dir, j.path
+	}
+	return pkgs[j.pi], dirs[j.pi], pkgs[j.pi].Name
 }
 
 // BuildJob / BuildRes are the protocol of the `vp c18-build` child (cmd/vp/sub_c18_build.go).
@@ -475,7 +523,9 @@ type BuildRes struct {
 }
 
 // e2eBatch builds a chunk of (package, tag set) pairs in one child and judges every result.
-func (s *state) e2eBatch(pkgs []*GenPkg, dirs []string, jobs []e2eJob, chunk int) {
+//
+// env is the environment of the child: GOROOT (GOPHERJS_GOROOT) and GOPATH are per-process settings.
+func (s *state) e2eBatch(pkgs []*GenPkg, dirs []string, jobs []e2eJob, chunk int, env []string) {
 	if len(jobs) == 0 {
 		return
 	}
@@ -483,14 +533,14 @@ func (s *state) e2eBatch(pkgs []*GenPkg, dirs []string, jobs []e2eJob, chunk int
 	d := c.Dir("e2e")
 	var bj []BuildJob
 	for k, j := range jobs {
-		g := pkgs[j.pi]
-		bj = append(bj, BuildJob{ID: fmt.Sprint(k), Dir: dirs[j.pi], Path: g.Name, Tags: g.TagSets[j.ti], GOOS: j.goos,
+		g, dir, path := j.resolve(pkgs, dirs)
+		bj = append(bj, BuildJob{ID: fmt.Sprint(k), Dir: dir, Path: path, Tags: g.TagSets[j.ti], GOOS: j.goos, Module: j.module,
 			Out: filepath.Join(d, fmt.Sprintf("out-%d.js", k))})
 	}
 	jf, rf := filepath.Join(d, "jobs.json"), filepath.Join(d, "res.json")
 	b, _ := json.Marshal(bj)
 	os.WriteFile(jf, b, 0o644)
-	r := core.Exec(d, core.BaseEnv("GOPATH="+s.gopath, "GO111MODULE=off", "GOMAXPROCS=2"), 30*time.Minute, "", c.Self, "c18-build", jf, rf)
+	r := core.Exec(d, core.BaseEnv(env...), 30*time.Minute, "", c.Self, "c18-build", jf, rf)
 	var res []BuildRes
 	rb, err := os.ReadFile(rf)
 	if r.TimedOut || r.Exit != 0 || err != nil || json.Unmarshal(rb, &res) != nil || len(res) != len(jobs) {
@@ -537,7 +587,8 @@ func (s *state) e2eBatch(pkgs []*GenPkg, dirs []string, jobs []e2eJob, chunk int
 			o := strings.Join(p.Lines, "\n") + "\n"
 			out = &o
 		}
-		s.judge(pkgs[j.pi], dirs[j.pi], j, res[k].OK, res[k].Err, bj[k].Out, chunk*1000+k, out)
+		g, dir, _ := j.resolve(pkgs, dirs)
+		s.judge(g, dir, j, res[k].OK, res[k].Err, bj[k].Out, chunk*1000+k, out)
 	}
 }
 
@@ -552,7 +603,7 @@ func (s *state) judge(g *GenPkg, dir string, j e2eJob, ok bool, output string, j
 	env := UserEnv(tags, goos)
 	preds := make([]*Prediction, len(g.Dirs))
 	for i, d := range g.Dirs {
-		p, err := env.PredictDir(filepath.Join(dir, d.Rel))
+		p, err := env.PredictDir(filepath.Join(dir, filepath.FromSlash(d.Where())))
 		if err != nil || len(p.Unpinned) > 0 {
 			c.Inconclusive("generator-mishap")
 			return
@@ -569,6 +620,12 @@ func (s *state) judge(g *GenPkg, dir string, j e2eJob, ok bool, output string, j
 		pre += "GO111MODULE=off GOPATH=$PWD/gopath "
 	}
 	cmd := fmt.Sprintf("# sources are in src/ (GOPATH mode: move them to gopath/src/%s)\ncd src && %sgopherjs build --tags %q -o out.js . && node out.js\n", g.Name, pre, strings.Join(tags, " "))
+	where := ""
+	if j.loc != nil {
+		cmd = j.loc.recipe(g, tags, goos)
+		where = fmt.Sprintf(" [user package at %s, import path %q, GOROOT=%s GOPATH=%s: must be selected as js/ecmascript like anywhere else]",
+			dir, j.path, orSystem(j.loc.goroot), filepath.Join(j.loc.root, j.loc.world.Gopath))
+	}
 
 	// what must happen
 	mustFailNoGo, mustFail := false, false
@@ -591,7 +648,12 @@ func (s *state) judge(g *GenPkg, dir string, j e2eJob, ok bool, output string, j
 	}
 	unlock := s.lock()
 	s.e2eRuns++
-	s.e2eByMode[j.mode]++
+	if j.loc != nil {
+		s.e2eByMode["location"]++
+		s.locByPlace[j.loc.world.Name+"/"+j.loc.place.Name]++
+	} else {
+		s.e2eByMode[j.mode]++
+	}
 	s.decisions += nd
 	if mustFail || mustFailNoGo {
 		s.e2eExpectErr++
@@ -604,17 +666,17 @@ func (s *state) judge(g *GenPkg, dir string, j e2eJob, ok bool, output string, j
 
 	if mustFailNoGo || mustFail {
 		if ok {
-			c.Violate(key, fmt.Sprintf("%s: build succeeded although %s (tags %v)", key, why, tags),
+			c.Violate(key, fmt.Sprintf("%s: build succeeded although %s (tags %v)%s", key, why, tags, where),
 				s.replayFiles(g, map[string]string{"cmd.sh": cmd}))
 			return
 		}
 		if mustFailNoGo && !noGoRe.MatchString(output) {
-			c.Violate(key, fmt.Sprintf("%s: %s, but the build failed with a different error (tags %v):\n%s", key, why, tags, firstLines(output, 12)),
+			c.Violate(key, fmt.Sprintf("%s: %s, but the build failed with a different error (tags %v)%s:\n%s", key, why, tags, where, firstLines(output, 12)),
 				s.replayFiles(g, map[string]string{"cmd.sh": cmd, "compiler-output.txt": output}))
 			return
 		}
 		if mustFail && noGoRe.MatchString(output) {
-			c.Violate(key, fmt.Sprintf("%s: the build claims that all Go files are excluded, but the documented rules select some (tags %v):\n%s", key, tags, firstLines(output, 12)),
+			c.Violate(key, fmt.Sprintf("%s: the build claims that all Go files are excluded, but the documented rules select some (tags %v)%s:\n%s", key, tags, where, firstLines(output, 12)),
 				s.replayFiles(g, map[string]string{"cmd.sh": cmd, "compiler-output.txt": output}))
 		}
 		if mustFailNoGo {
@@ -623,14 +685,15 @@ func (s *state) judge(g *GenPkg, dir string, j e2eJob, ok bool, output string, j
 		}
 		return
 	}
-	if !ok && (strings.Contains(output, s.gorootSrc()) || strings.Contains(output, s.gorootSrcReal())) {
+	if !ok && (strings.Contains(output, s.gorootSrc()) || strings.Contains(output, s.gorootSrcReal()) ||
+		(j.loc != nil && j.loc.goroot != "" && strings.Contains(output, filepath.Join(j.loc.goroot, "src")+string(filepath.Separator)))) {
 		// a user tag that also switches files of the standard library (e.g. -tags linux) broke a
 		// standard package: outside this property
 		c.Inconclusive("user-tag-broke-a-standard-package")
 		return
 	}
 	if !ok {
-		c.Violate(key, fmt.Sprintf("%s: build failed although the documented rules select a buildable file set (tags %v):\n%s", key, tags, firstLines(output, 12)),
+		c.Violate(key, fmt.Sprintf("%s: build failed although the documented rules select a buildable file set (tags %v)%s:\n%s", key, tags, where, firstLines(output, 12)),
 			s.replayFiles(g, map[string]string{"cmd.sh": cmd, "compiler-output.txt": output}))
 		return
 	}
@@ -667,7 +730,7 @@ func (s *state) judge(g *GenPkg, dir string, j e2eJob, ok bool, output string, j
 		}
 	}
 	if !sawReg || run.Exit != 0 {
-		c.Violate(key, fmt.Sprintf("%s: program built from the selected files did not run to completion (exit %d): %s", key, run.Exit, firstLines(run.Stderr+run.Stdout, 10)),
+		c.Violate(key, fmt.Sprintf("%s: program built from the selected files did not run to completion (exit %d)%s: %s", key, run.Exit, where, firstLines(run.Stderr+run.Stdout, 10)),
 			s.replayFiles(g, map[string]string{"cmd.sh": cmd, "node-output.txt": run.Stdout + run.Stderr}))
 		return
 	}
@@ -705,7 +768,7 @@ func (s *state) judge(g *GenPkg, dir string, j e2eJob, ok bool, output string, j
 			}
 		}
 		sort.Strings(odd)
-		c.Violate(key, fmt.Sprintf("%s: tags=%v GOOS=%q\n%s\nconstraints of the files in question:\n%s", key, tags, env.GOOS, msg, describe(g, odd)),
+		c.Violate(key, fmt.Sprintf("%s: tags=%v GOOS=%q%s\n%s\nconstraints of the files in question:\n%s", key, tags, env.GOOS, where, msg, describe(g, odd)),
 			s.replayFiles(g, map[string]string{"cmd.sh": cmd, "observed.txt": run.Stdout, "predicted.txt": "go: " + strings.Join(predGo, " ") + "\nincjs: " + strings.Join(predJS, " ") + "\n"}))
 		return
 	}
@@ -713,6 +776,9 @@ func (s *state) judge(g *GenPkg, dir string, j e2eJob, ok bool, output string, j
 		kind := "e2e"
 		if g.Name == "c18sentinel" {
 			kind = "e2e-sentinel"
+		}
+		if j.loc != nil {
+			kind = "e2e-location"
 		}
 		s.keep(kind, key, map[string]any{"files_in_dirs": nd, "registered_at_run_time": len(obsGo), "incjs_ran": obsJS,
 			"some_decisions": someDecisions(g, preds[0], dir)})
@@ -756,6 +822,13 @@ func someDecisions(g *GenPkg, p *Prediction, dir string) []string {
 		}
 	}
 	return out
+}
+
+func orSystem(goroot string) string {
+	if goroot == "" {
+		return "(system)"
+	}
+	return goroot
 }
 
 func first(l []string, n int) []string {
